@@ -227,8 +227,14 @@ class _Expr(ast.NodeTransformer):
         if isinstance(node.op, ast.Not):
             o = node.operand
             if isinstance(o, (ast.Compare, ast.BoolOp)) or (isinstance(o, ast.UnaryOp) and isinstance(o.op, ast.Not)):
+                if isinstance(o, ast.UnaryOp):
+                    # not not y: y itself when y is a truth value, else its truth value (a test position strips the bool() again)
+                    y = o.operand
+                    if _is_truth_value(y):
+                        return y
+                    return at(ast.Call(func=ast.Name(id='bool', ctx=ast.Load()), args=[y], keywords=[]), node)
                 if not (isinstance(o, ast.Compare) and not _flippable(o)):
-                    return self.visit(neg(o)) if isinstance(o, ast.UnaryOp) else neg(o)
+                    return neg(o)
             # not len(x) -> not x
             if isinstance(o, ast.Call) and isinstance(o.func, ast.Name) and o.func.id == 'len' and len(o.args) == 1 and not o.keywords:
                 node.operand = o.args[0]
@@ -245,7 +251,7 @@ class _Expr(ast.NodeTransformer):
                 if (isinstance(op, ast.Eq) and r.value == 0) or (isinstance(op, ast.Lt) and r.value == 1):
                     return at(ast.UnaryOp(op=ast.Not(), operand=x), node)
                 if (isinstance(op, (ast.NotEq, ast.Gt)) and r.value == 0) or (isinstance(op, ast.GtE) and r.value == 1):
-                    return at(ast.UnaryOp(op=ast.Not(), operand=at(ast.UnaryOp(op=ast.Not(), operand=x), node)), node)
+                    return at(ast.Call(func=ast.Name(id='bool', ctx=ast.Load()), args=[x], keywords=[]), node)
             # 'c' == x -> x == 'c'   (a constant operand of == / != stands on the right)
             if isinstance(op, (ast.Eq, ast.NotEq)) and isinstance(l, ast.Constant) and not isinstance(r, ast.Constant):
                 node.left, node.comparators = r, [l]
@@ -421,6 +427,13 @@ def _looks_boolean(e):
     return isinstance(e, (ast.Compare, ast.BoolOp)) or (isinstance(e, ast.UnaryOp) and isinstance(e.op, ast.Not)) or \
         (isinstance(e, ast.Constant) and isinstance(e.value, bool)) or \
         (isinstance(e, ast.Call) and isinstance(e.func, ast.Name) and e.func.id in ('bool', 'isinstance', 'hasattr', 'callable', 'issubclass', '_is_null'))
+
+
+def _is_truth_value(e):
+    '''an expression whose value is True or False (a BoolOp only when all its operands are)'''
+    if isinstance(e, ast.BoolOp):
+        return all(_is_truth_value(v) for v in e.values)
+    return _looks_boolean(e)
 
 
 def _is_set_expr(e):
@@ -871,7 +884,13 @@ class FunctionNormalizer(object):
                 if callee is None:
                     continue
                 body = [clone(x) for x in callee.body if not (isinstance(x, ast.Expr) and isinstance(x.value, ast.Constant))]
-                if len(body) != 1 or not isinstance(body[0], ast.For) or body[0].orelse:
+                if not (len(body) == 1 and isinstance(body[0], ast.For) and not body[0].orelse) or \
+                        sum(1 for n in ast.walk(body[0]) if isinstance(n, (ast.Yield, ast.YieldFrom))) != 1:
+                    # general form: every `yield E` (a statement of its own, anywhere in the helper's loops and branches) becomes
+                    # `T = E; BODY`; needs a BODY without break / continue of its own
+                    if self._inline_general_generator(lst, i, st, callee, body):
+                        changed = True
+                        break
                     continue
                 loop = body[0]
                 ys = [n for n in ast.walk(loop) if isinstance(n, (ast.Yield, ast.YieldFrom))]
@@ -915,6 +934,95 @@ class FunctionNormalizer(object):
             if changed:
                 break
         return changed
+
+    def _inline_general_generator(self, lst, i, st, callee, body):
+        if _has_free_loop_jump(st.body) or st.orelse:
+            return False
+        ys = []
+        ok = [True]
+
+        def scan(stmts, in_try):
+            for x in stmts:
+                if isinstance(x, (ast.FunctionDef, ast.AsyncFunctionDef, ast.ClassDef)):
+                    if any(isinstance(n, (ast.Yield, ast.YieldFrom)) for n in ast.walk(x)):
+                        pass
+                    continue
+                if isinstance(x, ast.Expr) and isinstance(x.value, ast.Yield) and x.value.value is not None:
+                    if in_try:
+                        ok[0] = False
+                    ys.append(x)
+                    continue
+                if isinstance(x, ast.Return) and x.value is not None:
+                    ok[0] = False
+                for fld, val in ast.iter_fields(x):
+                    if fld in ('body', 'orelse', 'finalbody'):
+                        continue
+                    vals = val if isinstance(val, list) else [val]
+                    for v in vals:
+                        if isinstance(v, ast.AST) and any(isinstance(n, (ast.Yield, ast.YieldFrom)) for n in ast.walk(v)):
+                            ok[0] = False       # a yield inside an expression
+                for f2, l2 in stmt_lists(x):
+                    if f2 == 'handler':
+                        if any(isinstance(n, (ast.Yield, ast.YieldFrom)) for y in l2 for n in ast.walk(y)):
+                            ok[0] = False
+                        continue
+                    scan(l2, in_try or isinstance(x, (ast.Try, ast.With)))
+        scan(body, False)
+        if not ok[0] or not ys or len(ys) > 4:
+            return False
+        # a `return` in the helper ends the iteration: only allowed as the helper's plain end (none at all here)
+        if any(isinstance(n, ast.Return) for x in body for n in local_walk(x)):
+            return False
+        bound = self._bind(st.iter, callee)
+        if bound is None:
+            return False
+        params, given = bound
+        local_names = set(params)
+        for x in body:
+            local_names |= names_stored(x)
+        caller_names = {n.id for n in ast.walk(self.fn) if isinstance(n, ast.Name)} | {x.arg for x in ast.walk(self.fn) if isinstance(x, ast.arg)}
+        stored = set()
+        for x in body:
+            stored |= names_stored(x)
+        mapping, pre, subst_args = {}, [], {}
+        for p_ in params:
+            arg = given[p_]
+            if isinstance(arg, ast.Name) and p_ not in stored:
+                mapping[p_] = arg.id
+            elif not may_raise(arg) and is_pure(arg) and p_ not in stored:
+                subst_args[p_] = arg
+            else:
+                mapping[p_] = self.fresh(p_) if p_ in caller_names else p_
+                pre.append(at(ast.Assign(targets=[ast.Name(id=mapping[p_], ctx=ast.Store())], value=clone(arg)), st))
+        ren = {}
+        for n_ in sorted(local_names):
+            if n_ in params:
+                if n_ in mapping:
+                    ren[n_] = mapping[n_]
+                continue
+            ren[n_] = self.fresh(n_) if n_ in caller_names else n_
+        body = [_Rename(ren).visit(x) for x in body]
+        if subst_args:
+            body = [_Subst(subst_args).visit(x) for x in body]
+        target, caller_body = st.target, st.body
+
+        def replace(stmts):
+            out = []
+            for x in stmts:
+                if isinstance(x, ast.Expr) and isinstance(x.value, ast.Yield) and x.value.value is not None:
+                    out.append(at(ast.Assign(targets=[clone(target)], value=x.value.value), x))
+                    out.extend(clone(y) for y in caller_body)
+                    continue
+                if not isinstance(x, (ast.FunctionDef, ast.AsyncFunctionDef, ast.ClassDef)):
+                    for fld in ('body', 'orelse', 'finalbody'):
+                        sub = getattr(x, fld, None)
+                        if isinstance(sub, list) and sub:
+                            setattr(x, fld, replace(sub))
+                out.append(x)
+            return out
+        new = replace(body)
+        lst[i:i + 1] = pre + [at(x, st) if not hasattr(x, 'lineno') else x for x in new]
+        return True
 
     def _bind(self, call, callee):
         a = callee.args
@@ -1426,6 +1534,50 @@ class FunctionNormalizer(object):
         # the loop variables must not be read after the loop (they keep their last value either way, which is the same)
         return True
 
+    _BUILTIN_EXC = {'KeyError': 'LookupError', 'IndexError': 'LookupError', 'LookupError': 'Exception', 'ValueError': 'Exception',
+                    'TypeError': 'Exception', 'AttributeError': 'Exception', 'StopIteration': 'Exception', 'OSError': 'Exception',
+                    'IOError': 'Exception', 'RuntimeError': 'Exception', 'NotImplementedError': 'RuntimeError', 'ZeroDivisionError': 'ArithmeticError',
+                    'ArithmeticError': 'Exception', 'OverflowError': 'ArithmeticError', 'AssertionError': 'Exception', 'NameError': 'Exception',
+                    'UnicodeError': 'ValueError', 'UnicodeDecodeError': 'UnicodeError', 'UnicodeEncodeError': 'UnicodeError',
+                    'ImportError': 'Exception', 'Exception': 'BaseException', 'KeyboardInterrupt': 'BaseException', 'SystemExit': 'BaseException'}
+
+    def _exception_ancestors(self, name):
+        '''ancestor class names of an exception class named by a plain Name: classes of the analysed modules (single Name bases)
+        and the usual builtins; None when the class is not known'''
+        classes = {}
+        owner = getattr(self, 'owner', None)
+        mods = getattr(owner, 'modules', None) or {}
+        for m in mods.values():
+            for n in ast.walk(m.tree):
+                if isinstance(n, ast.ClassDef):
+                    classes.setdefault(n.name, []).append(n)
+        out, cur, hops = [], name, 0
+        while hops < 12:
+            hops += 1
+            if cur in classes:
+                if len(classes[cur]) != 1 or len(classes[cur][0].bases) != 1:
+                    return None
+                b = classes[cur][0].bases[0]
+                b = b.id if isinstance(b, ast.Name) else (b.attr if isinstance(b, ast.Attribute) else None)
+                if b is None:
+                    return None
+                out.append(b)
+                cur = b
+            elif cur in self._BUILTIN_EXC:
+                out.append(self._BUILTIN_EXC[cur])
+                cur = self._BUILTIN_EXC[cur]
+            elif cur == 'BaseException':
+                return out
+            else:
+                return None
+        return None
+
+    def _unrelated_exceptions(self, a, b):
+        aa, ab = self._exception_ancestors(a), self._exception_ancestors(b)
+        if aa is None or ab is None:
+            return False
+        return a not in ab and b not in aa
+
     def _immutable_local(self, name):
         '''every value ever bound to the local `name` is a str / number / tuple by construction (so `name += e` re-binds, never mutates)'''
         def immut(e, depth=0):
@@ -1571,6 +1723,12 @@ class FunctionNormalizer(object):
                             hs.append(h)
                     if changed:
                         st.handlers = hs
+                    # handlers for unrelated exception classes are tried in one order (by name)
+                    hs = st.handlers
+                    if len(hs) > 1 and all(isinstance(h.type, ast.Name) for h in hs) and len({h.type.id for h in hs}) == len(hs):
+                        names_ = [h.type.id for h in hs]
+                        if all(self._unrelated_exceptions(a_, b_) for k_, a_ in enumerate(names_) for b_ in names_[k_ + 1:]):
+                            st.handlers = sorted(hs, key=lambda h: h.type.id)
                 # del <local>  /  a local that is stored once and never read
                 if isinstance(st, ast.Delete) and len(st.targets) == 1 and isinstance(st.targets[0], ast.Name) and self._is_local(st.targets[0].id):
                     n = st.targets[0].id
